@@ -97,6 +97,11 @@ def reject_candidates(t):
             ("zz" * 16, None, None), ("abcd", None, None), (None, "00" * 19, None), (None, None, "0" * 63),
             ("g" * 32, None, None), {"md5": "xyz"}, {"sha1": "00" * 21}, ("00" * 16, "00" * 20, "00" * 31),
             (None, None, "not hex at all"),
+            # the right number of hex digits but with whitespace (md5sum output, grouped hex): not a digest
+            ("d41d8cd98f00b204e9800998ecf8427e\n", None, None), (" d41d8cd98f00b204e9800998ecf8427e", None, None),
+            ("d41d8cd9 8f00b204 e9800998 ecf8427e", None, None), (None, "da39a3ee5e6b4b0d3255bfef95601890afd80709 ", None),
+            (None, None, "e3b0c44298fc1c14\t9afbf4c8996fb92427ae41e4649b934ca495991b7852b855"),
+            {"md5": "d4 1d 8c d9 8f 00 b2 04 e9 80 09 98 ec f8 42 7e"},
         ])
     if t in ("net.ipaddress", "net.IPAddress"):
         return st.sampled_from(["999.1.1.1", "not an ip", "1.2.3", "::g", "", "10.0.0.0/8", "1.2.3.4.5", -1, 2**128])
@@ -209,7 +214,8 @@ def case_strategy(draw, max_steps=30):
             comp = draw(st.sampled_from(["md5", "sha1", "sha256"]))
             ln = {"md5": 32, "sha1": 40, "sha256": 64}[comp]
             val = draw(st.one_of(st.none(), st.text("0123456789abcdef", min_size=ln, max_size=ln),
-                                 st.sampled_from(["abcd", "zz" * (ln // 2), "0" * (ln - 1), "0" * (ln + 2), ""])))
+                                 st.sampled_from(["abcd", "zz" * (ln // 2), "0" * (ln - 1), "0" * (ln + 2), "",
+                                                  "0" * ln + "\n", " " + "0" * ln, "00 " * (ln // 2), "0" * (ln // 2) + " " + "0" * (ln // 2)])))
             ok = val is None or (len(val) == ln and all(c in "0123456789abcdef" for c in val))
             ops.append(("digest-set", draw(st.sampled_from(dig)), comp, ("valid" if ok else "reject", val)))
         else:
